@@ -33,6 +33,14 @@ pub struct SUnit;
 #[derive(Clone, Debug, PartialEq, DbSerialize)]
 pub struct SEmpty {}
 
+/// vectors whose elements serialize to zero bytes: the element count is the only trace they leave
+#[derive(Clone, Debug, PartialEq, DbSerialize)]
+pub struct SUnits {
+    pub tags: Vec<SUnit>,
+    pub empties: Vec<SEmpty>,
+    pub id: bool,
+}
+
 #[derive(Clone, Debug, PartialEq, DbSerialize)]
 pub struct SGeneric<T: AgdbSerialize> {
     pub v: T,
@@ -139,6 +147,13 @@ pub enum Status {
     #[default]
     Inactive,
     Level(u64),
+}
+
+/// Types that only ever see their own encoding (C20): a vector of zero-byte elements read from
+/// arbitrary bytes loops once per claimed element without consuming input, which C21 (arbitrary
+/// bytes) would meet as a case that does not return; see DESIGN.md appendix D.
+pub fn registry_own_encoding_only() -> Vec<(&'static str, DeFn)> {
+    vec![("Vec<SUnit>", de::<Vec<SUnit>>), ("SUnits", de::<SUnits>)]
 }
 
 pub fn registry() -> Vec<(&'static str, DeFn)> {
@@ -318,6 +333,8 @@ fn ser_case() -> BoxedStrategy<SerCase> {
         s_tuple().prop_map(|v| case_of("STuple", &v, true)),
         Just(case_of("SUnit", &SUnit, false)),
         Just(case_of("SEmpty", &SEmpty {}, false)),
+        (0usize..40).prop_map(|n| case_of("Vec<SUnit>", &vec![SUnit; n], true)),
+        (0usize..24, 0usize..24, any::<bool>()).prop_map(|(a, b, id)| case_of("SUnits", &SUnits { tags: vec![SUnit; a], empties: vec![SEmpty {}; b], id }, true)),
         s_generic_string().prop_map(|v| case_of("SGeneric<String>", &v, true)),
         e_unit().prop_map(|v| case_of("EUnit", &v, false)),
         e_mixed().prop_map(|v| case_of("EMixed", &v, true)),
@@ -333,7 +350,8 @@ pub fn ser_case_pub() -> impl Strategy<Value = SerCase> {
 }
 
 fn c20_case(c: &SerCase) -> CaseResult {
-    let reg = registry();
+    let mut reg = registry();
+    reg.extend(registry_own_encoding_only());
     let f = reg.iter().find(|(n, _)| *n == c.ty).map(|(_, f)| *f).ok_or_else(|| Fail::new("harness: unknown type in case", c.ty.clone()))?;
     let ty = c.ty.split('<').next().unwrap_or(&c.ty).to_string();
     if c.size != c.bytes.len() as u64 {
